@@ -23,7 +23,7 @@ ASSUMPTIONS = [
     "forward-difference error of the generated families stays below 5e-5 (|f| and second derivatives <= ~1e2 with deriv_pert = 1e-8), well below deriv_tol = 1e-4",
     "Hessian corruption is applied to a single (row, col) entry (not mirrored), so exactly one column of the check is affected",
 ]
-TIERS = {"quick": {"worlds": 700, "wall": 150, "limit": 60.0}, "thorough": {"worlds": 15000, "wall": 1700, "limit": 120.0}}
+TIERS = {"quick": {"worlds": 1500, "wall": 150, "limit": 60.0}, "thorough": {"worlds": 15000, "wall": 1700, "limit": 120.0}}
 GATES = ("nontrivial", "second_solve.corrupted", "corrupt.hess_wrong_multiplier", "corrupt.dropped_entry", "corrupt.grad", "corrupt.jac", "corrupt.hess", "detected", "passed.uncorrupted", "passed.subtolerance", "passed.other_check")
 
 
